@@ -12,6 +12,7 @@ CONSTANTS Scheme <- WScheme
           NumCodes <- WNumCodes
           CodeSize <- WCodeSize
           Batches = {0, 1, 2, 3}
+          MaxFetches = 16384
           MaxCmds = 40
 
 CONSTRAINT Emit
